@@ -31,12 +31,26 @@ def main(spec):
     here = os.path.dirname(os.path.dirname(os.path.abspath(__file__)))
     work = tempfile.mkdtemp(prefix="runpyn_", dir="/dev/shm" if os.path.isdir("/dev/shm") else None)
     try:
-        shutil.copy(os.path.join(here, "corpus", spec["module"] + ".py"), work)
+        module_name = spec["module"]
+        if spec.get("package"):
+            # the module under test inside a package with sibling modules that hold constants (static
+            # constant seeding scans the package)
+            pkg = os.path.join(work, "shop")
+            os.makedirs(pkg)
+            open(os.path.join(pkg, "__init__.py"), "w").close()
+            shutil.copy(os.path.join(here, "corpus", spec["module"] + ".py"), pkg)
+            with open(os.path.join(pkg, "labels.py"), "w") as fh:
+                fh.write('SALE = "sale"\nNEW = "new-arrival"\nCODES = ("A1", "B22", "C333")\nLIMIT = 19\n')
+            with open(os.path.join(pkg, "pricing.py"), "w") as fh:
+                fh.write('CURRENCY = "EUR"\nRATES = {"std": 0.19, "low": 0.07}\nSTEP = 2\nNAME = "price list"\n')
+            module_name = "shop." + spec["module"]
+        else:
+            shutil.copy(os.path.join(here, "corpus", spec["module"] + ".py"), work)
         out = os.path.join(work, "out")
         os.makedirs(out)
         cfg = config.Configuration(
             algorithm=config.Algorithm[spec["algorithm"]],
-            project_path=work, module_name=spec["module"],
+            project_path=work, module_name=module_name,
             test_case_output=config.TestCaseOutputConfiguration(output_path=out))
         cfg.seeding.seed = spec.get("seed", 0)
         cfg.use_master_worker = False
@@ -174,7 +188,7 @@ def main(spec):
         except BaseException as exc:  # noqa: BLE001
             rc_name, err = "RAISED", f"{type(exc).__name__}: {exc}"
         wall = time.time() - t0
-        test_file = os.path.join(out, f"test_{spec['module']}.py")
+        test_file = os.path.join(out, f"test_{module_name.replace('.', '_')}.py")
         content = None
         if os.path.exists(test_file):
             with open(test_file, encoding="utf-8") as fh:
